@@ -499,13 +499,53 @@ frg%(u)s(n: SI): SI == {
     return d, [], "frg%s(%d)" % (u, cells)
 
 
+def b_bigdrop(u, rng, n):
+    """One very large object per round (a section of its own), built deep in a recursion so
+    that no stale copy of its address stays in the frames that run later, dropped, and
+    followed by medium-sized allocations that are kept and verified at the end.  The size
+    grows by a few bytes per round so that the unused tail of the section takes every
+    length."""
+    base = rng.choice([8200, 16000, 40000, 40000, 100000])
+    step = rng.choice([1, 2, 4, 4, 8, 32])
+    med = rng.choice([40, 64, 100, 300])
+    rounds = rng.range(16, 40)
+    depth = rng.choice([20, 80, 200])
+    d = '''
+bdd%(u)s(d: SI, n: SI): SI == {
+	import from PrimitiveArray SI;
+	d > 0 => 1 + bdd%(u)s(d - 1, n);
+	a: PrimitiveArray SI := new(n, 7);
+	a.1 + a.n
+}
+bdr%(u)s(rounds: SI): SI == {
+	import from List Array SI;
+	keep: List Array SI := nil;
+	tot: SI := 0;
+	j: SI := 0;
+	while j < rounds repeat {
+		tot := (tot + bdd%(u)s(%(depth)d, %(base)d + %(step)d * j)) rem %(M)d;
+		b: Array SI := new(%(med)d, j);
+		keep := cons(b, keep);
+		l: List SI := nil;
+		k: SI := 1;
+		while k <= 200 repeat { l := cons(k, l); k := k + 1 }
+		for x in l repeat tot := (tot + x) rem %(M)d;
+		j := j + 1;
+	}
+	for kb in keep repeat { i: SI := 1; while i <= %(med)d repeat { tot := (tot + kb.i) rem %(M)d; i := i + 1 } }
+	tot
+}
+''' % dict(u=u, base=base, step=step, med=med, depth=depth, M=M)
+    return d, [], "bdr%s(%d)" % (u, rounds)
+
+
 BLOCKS = [("list", b_list, 4), ("record", b_record, 4), ("node", b_node, 2), ("closure", b_closure, 2),
           ("generator", b_generator, 2), ("bigint", b_bigint, 3), ("string", b_string, 2), ("table", b_table, 2),
           ("array", b_array, 3), ("domain", b_domain, 1),
           ("exn", b_exn, 2), ("union", b_union, 2), ("float", b_float, 1), ("tokens", b_tokens, 1),
           ("deeprec", b_deeprec, 2), ("ptrarray", b_ptrarray, 2), ("dyndom", b_dyndom, 2),
           ("strops", b_strops, 2), ("arrgrow", b_arrgrow, 2), ("bigarray", b_bigarray, 3), ("rawrec", b_rawrec, 0),	# rawrec: compiled route only (the interpreter has no RRFmt)
-          ("frag", b_frag, 0), ("chain", b_chain, 0)]	# weight 0: only when forced (expensive)
+          ("frag", b_frag, 0), ("chain", b_chain, 0), ("bigdrop", b_bigdrop, 0)]	# weight 0: only when forced (expensive)
 
 
 def gen_blocks(rng, size="small", force=()):
